@@ -418,7 +418,9 @@ def oracle_bytes(res, sc, cfg, hev, producers_only=False):
     cap = cfg.cap
     hdr = 0 if cfg.routing == "NONE" else HEADER
     depth = {r: 0 for r in range(cfg.n)}
-    win = {r: 0 for r in range(cfg.n)}       # inside flush_all / local_progress (flush points)
+    win = {r: 0 for r in range(cfg.n)}       # inside flush_all / a local_progress the USER called (flush points)
+    hstack = {r: [] for r in range(cfg.n)}   # innermost harness-level call: A/BC/MC (issuing), P/W (progress / wait), X, C
+    lpkind = {r: [] for r in range(cfg.n)}
     mask = {r: 0 for r in range(cfg.n)}
     lastpk = {r: 0 for r in range(cfg.n)}
     maxmsg = max([0] + [int(ev.f[1]) for ev in hev if ev.kind == "k:pk"])
@@ -430,10 +432,23 @@ def oracle_bytes(res, sc, cfg, hev, producers_only=False):
             depth[r] += 1
         elif k == "k:ex-":
             depth[r] -= 1
-        elif k in ("k:fl+", "k:lp+"):
+        elif k in HOPEN:
+            hstack[r].append(k)
+        elif k in HCLOSE:
+            if hstack[r]:
+                hstack[r].pop()
+        elif k == "k:fl+":
             win[r] += 1
-        elif k in ("k:fl-", "k:lp-"):
+        elif k == "k:fl-":
             win[r] -= 1
+        elif k == "k:lp+":
+            # local_progress is a flush point only when the program called it (directly or through local_wait_until)
+            user = bool(hstack[r]) and hstack[r][-1] in ("P", "W")
+            lpkind[r].append(user)
+            win[r] += 1 if user else 0
+        elif k == "k:lp-":
+            if lpkind[r] and lpkind[r].pop():
+                win[r] -= 1
         elif k == "k:im+":
             mask[r] = 1
         elif k == "k:im-":
@@ -492,6 +507,8 @@ def analyze(res, sc, cfg, sr, want=("delivery", "barrier", "atomic"), known_dead
     return out, hev, wire
 
 
+HOPEN = ("A", "BC", "MC", "P", "W", "X", "C")
+HCLOSE = ("a", "bc", "mc", "p", "w", "x", "c")
 LAYOUTS_QUICK = [(1, 1), (1, 4), (2, 2), (2, 3), (3, 2), (4, 1), (3, 3)]
 ROUTINGS = ["NONE", "NR", "NLNR"]
 POLICIES = ["uniform", "racer", "starve", "late", "burst"]
